@@ -24,7 +24,7 @@ SPEC = dict(
          'distinct_nontrivial counts distinct (width, bit order, polynomial) tables whose 256 entries were all judged - '
          'NOT the number of messages or calls (evaluations).',
     exhaustive={'quick': _EXH, 'thorough': _EXH},
-    require=['table-reinitialised-over-adversarial-contents', 'giant-message-at-once-vs-pieces', 'large-message-lengths', 'table-entry-msb-first', 'table-entry-lsb-first', 'table-reflection-relation',
+    require=['table-reinitialised-over-adversarial-contents', 'giant-message-at-once-vs-pieces', 'giant-message-3x2^32-at-once-vs-pieces', 'large-message-lengths', 'table-entry-msb-first', 'table-entry-lsb-first', 'table-reflection-relation',
              'crc-vs-bitwise-division-msb-first', 'crc-vs-bitwise-division-lsb-first', 'crc-vs-coefficient-long-division',
              'crc-reflection-relation', 'crc-message-containing-its-own-running-register',
              'crc-two-pieces-every-split', 'crc-three-pieces-every-split',
@@ -54,7 +54,7 @@ SPEC = dict(
     technique='exhaustive table sweep + structured/random message sweep with exact integer oracles, every-split-point re-feeding, '
               'tables re-initialised over adversarial contents, exact-size heap blocks under ASan+UBSan; 2^32+37-byte messages at once vs in pieces (unsanitised); messages containing their own running register',
     # second configuration: one message of 2^32+37 bytes per routine, unsanitised build (two passes over 4 GiB take ~10 s each way)
-    configs=lambda tier: [dict(name='mt', harness=['h_mt_codec.c'], hflags=['-DVF_MT=17'], flavour='tsan', nworkers=1), dict(name='default'), dict(name='giant', harness=['h_crc_giant.c'], flavour='fast', nworkers=9),
+    configs=lambda tier: [dict(name='mt', harness=['h_mt_codec.c'], hflags=['-DVF_MT=17'], flavour='tsan', nworkers=1), dict(name='default'), dict(name='giant', harness=['h_crc_giant.c'], flavour='fast', nworkers=10 if tier == 'quick' else 13),
                           dict(name='clang', libcc='clang', nworkers=3, of=6), dict(name='o2', libflavour='san-o2', libdrop=['-fno-strict-aliasing'], nworkers=3, of=6)],  # library compiled by clang: half of the cases
     parallel_configs=5,
     workers={'quick': 8, 'thorough': 16},
